@@ -40,7 +40,7 @@ import vcheck as V
 
 PID = "C05"
 TRUSTED = [
-    "Coq 8.16.1 kernel (coqc), full .vo build; vm_compute in one Example (C05_ex_history); no native_compute",
+    "Coq 8.16.1 kernel (coqc), full .vo build; vm_compute in two Examples (C05_ex_history, C05_ex_history_with_failures) and in the membership parts of the closed witness C05_error_carrying_parameters_refuted; no native_compute",
     "axioms: none (Print Assumptions: Closed under the global context for every theorem)",
     "symbolic-crypto assumptions are the term algebra of Keys/Store.v itself: Enc opens only with its key, Hash and Kdf are free one-way constructors, passphrases and random keys are atoms distinct from every public byte string; algebraic relations of secp256k1 (public derivation, parent-from-child) are outside the algebra",
     "section hypotheses of Part 2 (premises, not axioms): unlock_laws (see C03)",
@@ -343,7 +343,7 @@ def main(tier, replay=None):
     if mst is None:
         return c.finish(TRUSTED, no_input_break=mcorr[0])
     # the fault family
-    nf = 24 if tier == "quick" else 16
+    nf = 24 if tier == "quick" else 8
     if c.escalated and tier == "quick":
         nf *= 2
     fst, fbrk, fherr = fault_family(c, outs[0], nf, tier != "quick", only=(ffirsts if replay else None))
